@@ -1,4 +1,4 @@
 SPECIFICATION Spec
-INVARIANTS C08_SaveStep C08_Reserved
+INVARIANTS C03_ScaledExact
 POSTCONDITION Post
 CHECK_DEADLOCK FALSE
